@@ -52,6 +52,13 @@ def expand_defs(contract: Contract) -> Contract:
     c.at = [(a[0], a[1], a[2]) if len(a) == 3 else (tags.__setitem__(a[1], list(a[3])) or (a[0], a[1], a[2])) for a in c.at]
     c.ghost = dict(c.ghost or {})
     c.ghost["tags"] = tags
+    # clauses that are only checked in the thorough tier (slow quantifier alternations)
+    slow = set(c.ghost.get("thorough_only", []))
+    if slow and os.environ.get("VERIF_TIER", "quick") != "thorough":
+        c.ensures = [t for t in c.ensures if t[0] not in slow]
+        c.raises = {k: [t for t in v if t[0] not in slow] for k, v in c.raises.items()}
+        for lc in c.loops.values():
+            lc["inv"] = [t for t in lc.get("inv", []) if t[0] not in slow]
     defs = c.ghost.get("defs")
     if not defs:
         return c
@@ -215,7 +222,7 @@ def _cache_key(qualname, contracts_mod):
     for f in sorted(glob.glob(os.path.join(VERIF, "contracts", "*.py")) + glob.glob(os.path.join(VERIF, "vf", "*.py"))):
         with open(f, "rb") as fh:
             h.update(fh.read())
-    for k in ("VERIF_Z3_TIMEOUT_MS", "VERIF_CVC5_TIMEOUT_S", "VERIF_SCOPE"):
+    for k in ("VERIF_Z3_TIMEOUT_MS", "VERIF_CVC5_TIMEOUT_S", "VERIF_SCOPE", "VERIF_TIER"):
         h.update((k + os.environ.get(k, "")).encode())
     h.update(qualname.encode() + contracts_mod.encode())
     return h.hexdigest()[:24]
